@@ -200,7 +200,9 @@ def job_fields(job):
     import struct as _st
     client, cfg = job["client"], tuple(map(tuple, job["cfg"]))
     acc = Acc()
-    for state in (("handshaken", "open") if not client else ("handshaken", "open", "resp-headers")):
+    # every base state that is not closed: among them streams that have ended or were reset and linger in the stream table
+    for state in [x for x in (corpus.CLIENT_STATES if client else corpus.SERVER_STATES)
+                  if not x.startswith("closed") and x not in ("fresh", "preface-half", "mid-block")]:
         blob = corpus.state_blob(client, state, cfg)
         frames = []
         for ident in list(range(0, 41)) + [0xff, 0x100, 0x7fff, 0xffff]:
